@@ -147,6 +147,29 @@ func (g *FnGen) doCall(ci ssa.CallInstruction, v ssa.Value) {
 	}
 	pre := g.st.clone()
 
+	// objects allocated here whose type carries an invariant are published by passing them to a
+	// call: the invariant must hold now, and the callee maintains it from then on
+	var published []Val
+	{
+		r := g.root()
+		cands := append([]Val{}, args...)
+		if recv != nil {
+			cands = append(cands, *recv)
+		}
+		for _, a := range cands {
+			tn := typeInvName(a.Go)
+			if tn == "" {
+				continue
+			}
+			for _, oa := range r.ownAllocs[tn] {
+				if oa.term == a.T {
+					g.oblige("typeinv", site+"/publish:"+tn, guard, g.typeInvTerm(a, g.st), "invariant of "+tn+" holds when the new object is handed to a callee", ci.Pos())
+					published = append(published, a)
+				}
+			}
+		}
+	}
+
 	// at-call assertions from the caller's contract
 	if g.C != nil && g.parent == nil {
 		for _, cs := range g.C.Calls {
@@ -205,7 +228,8 @@ func (g *FnGen) doCall(ci ssa.CallInstruction, v ssa.Value) {
 	// values captured by reference may have been changed by a callee that holds the closure
 	// (handled by the computed write sets, which include cell keys).
 
-	// results
+	// results. A result is live after the call; Live is extended here (not assumed on the
+	// pre-call Live), so that "fresh(result)" in an ensures clause is consistent.
 	var rs []Val
 	nres := sig.Results().Len()
 	for i := 0; i < nres; i++ {
@@ -214,12 +238,14 @@ func (g *FnGen) doCall(ci ssa.CallInstruction, v ssa.Value) {
 		if ct != nil && ct.Pure {
 			rv = g.pureResult(name, i, rt, recv, args)
 			g.assume("true", g.wfFacts(rv), "type")
-			g.assume(guard, g.liveFact(g.st, rv), "live")
 		} else if ct != nil && ct.Fresh && i == 0 && g.D.sortOf(rt) == sortRef {
 			rv = Val{T: g.allocRef("res_"+sanitize(name), guard), S: sortRef, Go: rt}
 		} else {
-			rv = g.freshVal(fmt.Sprintf("r%d_%s", i, sanitize(name)), rt, guard)
+			rv = g.mkVal(g.freshConst(fmt.Sprintf("r%d_%s", i, sanitize(name)), g.D.sortOf(rt)), rt)
+			g.assume("true", g.wfFacts(rv), "type")
 		}
+		g.markLive(rv)
+		g.assumeTypeInv(rv, guard)
 		rs = append(rs, rv)
 	}
 	if v != nil {
@@ -232,6 +258,9 @@ func (g *FnGen) doCall(ci ssa.CallInstruction, v ssa.Value) {
 		default:
 			g.tuples[v] = rs
 		}
+	}
+	for _, a := range published {
+		g.assume(guard, g.typeInvTerm(a, g.st), "typeinv-after-publish")
 	}
 	if ct != nil {
 		resultEnv(env, sig, rs)
@@ -611,6 +640,10 @@ func (g *FnGen) assumeGlobals(guard string) {
 // Function exit: postconditions
 
 func (g *FnGen) finish() {
+	for k, r := range g.rets {
+		g.st = r.st
+		g.checkTypeInvsAtReturn(k, r)
+	}
 	if g.C == nil || len(g.C.Ensures) == 0 || len(g.rets) == 0 {
 		return
 	}
@@ -801,4 +834,19 @@ func (g *FnGen) checkCalleeKey(ci ssa.CallInstruction, k string) {
 		}
 	}
 	g.oblige("assigns", g.siteNames[ci]+":callee-writes:"+strings.TrimPrefix(k, "F:"), g.curGuard, "false", "callee may write "+k+", which the assigns clause does not permit", ci.Pos())
+}
+
+// markLive extends Live with a value that the program now holds.
+func (g *FnGen) markLive(v Val) {
+	var ref string
+	switch v.S {
+	case sortRef:
+		ref = v.T
+	case sortSlice:
+		ref = "(s_base " + v.T + ")"
+	default:
+		return
+	}
+	live := g.D.get(g.st, liveKey)
+	g.st[liveKey] = g.def("live", g.D.heapSorts[liveKey], store(live, ref, "true"))
 }
